@@ -49,6 +49,17 @@ def build_one(exe, rng, idx):
             continue
         good = h.make_reply(ent, attrs=[(18, b"ok")], with_ma=rng.random() < 0.7)
         style = rng.random()
+        if rng.random() < 0.15:
+            # several Message-Authenticators: (bad, good), (good, bad), (bad length, good), (bad, bad)
+            kind = rng.randrange(4)
+            bad = (80, R.rand_bytes(rng, 16))
+            badlen = (80, R.rand_bytes(rng, rng.choice([0, 15, 17])))
+            mas = [[bad, (80, None)], [(80, None), bad], [badlen, (80, None)], [bad, bad]][kind]
+            attrs = [mas[0], (18, b"ok"), mas[1]]
+            h.send("reply %s %s" % (sv, h.make_reply(ent, attrs=attrs, with_ma=False).hex()))
+            h.tag("bad-reply")
+            h.tag("multi-ma")
+            continue
         if style < 0.25:
             h.send("reply %s %s" % (sv, good.hex()))
             h.tag("good-reply")
